@@ -59,6 +59,12 @@ def gen_cases(tier, seed):
             c['x_dtype'] = str(rng.choice(['int32', 'int64', 'uint16']))
         if i % 5 == 0:
             c['factor_lookup'] = True
+        if i % 8 == 3:
+            # vote counters must hold more than 255 (and 65535) votes
+            c['bootstrap_iteration'] = int(rng.choice([255, 256, 300, 700]))
+            c['n_cells'] = min(c['n_cells'], 8)
+            c['separable'] = True
+            c['noise'] = 0.3
         if i % 4 != 3:
             c['n_genes'] = int(rng.integers(30, 90))
             c['marker_kmin'] = int(rng.integers(5, 12))
